@@ -39,6 +39,19 @@ class _Sub(ast.NodeTransformer):
             return _clone(self.m[n.id])
         return n
 
+    def visit_Call(self, n):
+        self.generic_visit(n)
+        if any(k.arg is None and isinstance(k.value, ast.Name) and ("**" + k.value.id) in self.m for k in n.keywords):
+            # `**kwargs` of an inlined helper: the caller's surplus keywords take its place
+            new = []
+            for k in n.keywords:
+                if k.arg is None and isinstance(k.value, ast.Name) and ("**" + k.value.id) in self.m:
+                    new.extend(_clone(x) for x in self.m["**" + k.value.id])
+                else:
+                    new.append(k)
+            n.keywords = new
+        return n
+
 
 def _body(fd):
     b = list(fd.body)
@@ -69,8 +82,15 @@ def _bind(fd, call, skip_self, temps=None):
         m = dict(m)
         m["self"] = ast.Name(id=skip_self[1], ctx=ast.Load())
         return m
-    if fd.args.vararg or fd.args.kwarg or fd.args.kwonlyargs:
+    if fd.args.vararg or fd.args.kwonlyargs:
         return None
+    kwn = fd.args.kwarg.arg if fd.args.kwarg else None
+    if kwn is not None:
+        # `**kwargs` that the helper only passes on (`f(..., **kwargs)`): the caller's surplus keywords are spliced in
+        passes = {id(k.value) for c in ast.walk(fd) if isinstance(c, ast.Call) for k in c.keywords
+                  if k.arg is None and isinstance(k.value, ast.Name) and k.value.id == kwn}
+        if any(isinstance(n, ast.Name) and n.id == kwn and id(n) not in passes for n in ast.walk(fd)):
+            return None
     ps = _params(fd, skip_self)
     defaults = fd.args.defaults
     dmap = {}
@@ -82,7 +102,15 @@ def _bind(fd, call, skip_self, temps=None):
         return None
     for p, a in zip(ps, call.args):
         m[p] = a
+    surplus = []
     for k in call.keywords:
+        if kwn is not None and (k.arg is None or k.arg not in ps):
+            if k.arg is None and not isinstance(k.value, ast.Name):
+                return None
+            if not _simple_arg(k.value):
+                return None
+            surplus.append(k)
+            continue
         if k.arg is None or k.arg not in ps or k.arg in m:
             return None
         m[k.arg] = k.value
@@ -107,6 +135,8 @@ def _bind(fd, call, skip_self, temps=None):
                 tn = "%s_arg%d" % (p, len(temps) + 1)
                 temps.append(ast.Assign(targets=[ast.Name(id=tn, ctx=ast.Store())], value=a))
                 m[p] = ast.Name(id=tn, ctx=ast.Load())
+    if kwn is not None:
+        m["**" + kwn] = surplus
     return m
 
 
@@ -706,6 +736,39 @@ class StructNorm(ast.NodeTransformer):
         return [st]
 
 
+def split_tuple_assigns(tree):
+    """`a, b = (x, y)` (a tuple display of the same length on the right, x and y plain names / attributes / constants
+    none of which reads a target) is `a = x; b = y`."""
+    count = 0
+
+    def simple(e):
+        return all(isinstance(x, (ast.Name, ast.Attribute, ast.Constant, ast.Load, ast.Store)) for x in ast.walk(e))
+    for blk in [x for x in ast.walk(tree) if isinstance(getattr(x, "body", None), list)]:
+        for fld in ("body", "orelse", "finalbody"):
+            body = getattr(blk, fld, None)
+            if not isinstance(body, list):
+                continue
+            i = 0
+            while i < len(body):
+                st = body[i]
+                if isinstance(st, ast.Assign) and len(st.targets) == 1 and isinstance(st.targets[0], (ast.Tuple, ast.List)) \
+                        and isinstance(st.value, (ast.Tuple, ast.List)) and len(st.value.elts) == len(st.targets[0].elts) >= 2 \
+                        and all(simple(v) for v in st.value.elts) and all(simple(t) for t in st.targets[0].elts):
+                    tt = [ast.unparse(t) for t in st.targets[0].elts]
+                    vt = [ast.unparse(v) for v in st.value.elts]
+                    roots = {t.split(".")[0] for t in tt if "." not in t}
+                    if not any(t == v or v.startswith(t + ".") for t in tt for v in vt) and len(set(tt)) == len(tt):
+                        new = [ast.copy_location(ast.Assign(targets=[t], value=v), st) for t, v in zip(st.targets[0].elts, st.value.elts)]
+                        body[i:i + 1] = new
+                        count += 1
+                        i += len(new)
+                        continue
+                i += 1
+    if count:
+        ast.fix_missing_locations(tree)
+    return count
+
+
 def baseline_attrs():
     baseline()
     p = os.path.join(VERIF, "spec", "baseline_names.json")
@@ -948,40 +1011,62 @@ class Evolve:
                 for x in st.body:
                     if isinstance(x, ast.FunctionDef):
                         todo.append(("%s.%s" % (st.name, x.name), x))
-        for key, fd in todo:
-            if key not in bpar:
-                continue
-            old_ps = set(bpar[key])
-            a = fd.args
-            pos = a.args
-            dflt = dict(zip([x.arg for x in pos[len(pos) - len(a.defaults):]], a.defaults))
-            for x, dv in zip(a.kwonlyargs, a.kw_defaults):
-                if dv is not None:
-                    dflt[x.arg] = dv
-            for nm, dv in dflt.items():
-                if nm in old_ps or not isinstance(dv, ast.Constant):
+        sibs = _sibling_trees(self.path) if self.path else []
+        done = set()
+        for _round in range(4):
+            progress = False
+            for key, fd in todo:
+                if key not in bpar:
                     continue
-                # passed anywhere as a keyword?  (positional use would need more arguments than the pinned signature has:
-                # checked by counting the positional arguments of calls to this name)
-                if re.search(r"\b%s\s*=" % re.escape(nm), re.sub(r"def\s+%s\s*\([^)]*\)" % re.escape(fd.name), "", sib)):
-                    continue
-                nposmax = len([x for x in pos if x.arg in old_ps])
-                too_many = False
-                for c in ast.walk(self.tree):
-                    if isinstance(c, ast.Call):
-                        cn = c.func.attr if isinstance(c.func, ast.Attribute) else c.func.id if isinstance(c.func, ast.Name) else None
-                        if cn == fd.name:
-                            extra = 1 if (isinstance(c.func, ast.Attribute) or not (pos and pos[0].arg in ("self", "cls"))) and pos and pos[0].arg in ("self", "cls") else 0
-                            if len(c.args) + extra > nposmax or any(isinstance(x, ast.Starred) for x in c.args) or any(k.arg is None for k in c.keywords):
-                                too_many = True
-                if too_many:
-                    continue
-                if any(isinstance(n, ast.Name) and n.id == nm and isinstance(n.ctx, (ast.Store, ast.Del)) for n in ast.walk(fd)):
-                    continue
-                for st in fd.body:
-                    _Sub({nm: dv}).visit(st)
-                _Simplify().visit(fd)
-                self.count += 1
+                old_ps = set(bpar[key])
+                a = fd.args
+                pos = a.args
+                dflt = dict(zip([x.arg for x in pos[len(pos) - len(a.defaults):]], a.defaults))
+                for x, dv in zip(a.kwonlyargs, a.kw_defaults):
+                    if dv is not None:
+                        dflt[x.arg] = dv
+                for nm, dv in dflt.items():
+                    if nm in old_ps or not isinstance(dv, ast.Constant) or (key, nm) in done:
+                        continue
+                    # passed by any call of a function of this name (this module as normalised so far, sibling modules)?
+                    # A keyword carrying the default itself does not count; positional use would need more arguments
+                    # than the pinned signature has.
+                    nposmax = len([x for x in pos if x.arg in old_ps])
+                    blocked = False
+                    for t_ in [self.tree] + sibs:
+                        for c in ast.walk(t_):
+                            if not isinstance(c, ast.Call):
+                                continue
+                            cn = c.func.attr if isinstance(c.func, ast.Attribute) else c.func.id if isinstance(c.func, ast.Name) else None
+                            if cn != fd.name and not (fd.name == "__init__" and cn == key.split(".")[0]):
+                                continue
+                            for k in c.keywords:
+                                if k.arg is None:
+                                    blocked = True
+                                elif k.arg == nm and not (isinstance(k.value, ast.Constant) and k.value.value == dv.value
+                                                          and type(k.value.value) is type(dv.value)):
+                                    blocked = True
+                            extra = 1 if (isinstance(c.func, ast.Attribute) or fd.name == "__init__") and pos and pos[0].arg in ("self", "cls") else 0
+                            if len(c.args) + extra > nposmax or any(isinstance(x, ast.Starred) for x in c.args):
+                                blocked = True
+                    if blocked:
+                        continue
+                    if any(isinstance(n, ast.Name) and n.id == nm and isinstance(n.ctx, (ast.Store, ast.Del)) for n in ast.walk(fd)):
+                        continue
+                    for st in fd.body:
+                        _Sub({nm: dv}).visit(st)
+                    _Simplify().visit(fd)
+                    # calls that spell out the default are the plain calls of the pinned version
+                    for c in ast.walk(self.tree):
+                        if isinstance(c, ast.Call):
+                            cn = c.func.attr if isinstance(c.func, ast.Attribute) else c.func.id if isinstance(c.func, ast.Name) else None
+                            if cn == fd.name or (fd.name == "__init__" and cn == key.split(".")[0]):
+                                c.keywords = [k for k in c.keywords if k.arg != nm]
+                    self.count += 1
+                    done.add((key, nm))
+                    progress = True
+            if not progress:
+                break
 
     # -- named constants introduced later
     def new_constants(self):
@@ -1538,6 +1623,36 @@ class Inliner:
                             for s in b:
                                 out.append(_Sub(m).visit(_clone(s)))
                             continue
+                        hb = _body(h)
+                        rets = [n for s_ in hb for n in ast.walk(s_) if isinstance(n, ast.Return)]
+                        bad = any(isinstance(n, (ast.Yield, ast.YieldFrom, ast.Global, ast.Nonlocal, ast.FunctionDef, ast.Lambda))
+                                  for s_ in hb for n in ast.walk(s_))
+                        if b is None and hb and not bad and len(rets) == 1 and rets[0] is hb[-1] and rets[0].value is not None \
+                                and all(isinstance(x, (ast.Name, ast.Attribute, ast.Constant, ast.Tuple, ast.Load)) for x in ast.walk(rets[0].value)):
+                            # the helper's value (a plain name / attribute / constant) is discarded by this caller
+                            m = _bind(h, st.value, skip)
+                            if m is not None:
+                                hlocals = {n.id for s_ in hb for n in ast.walk(s_) if isinstance(n, ast.Name)
+                                           and isinstance(n.ctx, (ast.Store, ast.Del))}
+                                used = {n.id for n in ast.walk(fd) if isinstance(n, ast.Name)} | {a.arg for a in fd.args.args}
+                                ren = {}
+                                for nm in hlocals:
+                                    if nm in used:
+                                        k = 1
+                                        while "%s_h%d" % (nm, k) in used | hlocals:
+                                            k += 1
+                                        ren[nm] = "%s_h%d" % (nm, k)
+
+                                class Ren0(ast.NodeTransformer):
+                                    def visit_Name(self_, n_):
+                                        if n_.id in ren:
+                                            return ast.copy_location(ast.Name(id=ren[n_.id], ctx=n_.ctx), n_)
+                                        return n_
+                                self.count += 1
+                                fd._inlined_into = True
+                                for s_ in hb[:-1]:
+                                    out.append(_Sub(m).visit(Ren0().visit(_clone(s_))))
+                                continue
                 gen_call = None
                 if isinstance(st, (ast.Return, ast.Assign)) and isinstance(st.value, ast.Call) and isinstance(st.value.func, ast.Name) \
                         and st.value.func.id == "list" and len(st.value.args) == 1 and isinstance(st.value.args[0], ast.Call) \
@@ -1694,6 +1809,15 @@ class Inliner:
                                         while "%s_h%d" % (nm, k) in used | hlocals:
                                             k += 1
                                         ren[nm] = "%s_h%d" % (nm, k)
+                                # `x = helper()` where the helper ends in `return v`, v a local of the helper: v IS x
+                                # (renamed, no alias assignment) unless the caller's x feeds the call's own arguments
+                                rv = hb[-1].value
+                                if not same and isinstance(rv, ast.Name) and rv.id in hlocals and len(st.targets) == 1 \
+                                        and isinstance(st.targets[0], ast.Name) and st.targets[0].id not in hlocals \
+                                        and rv.id not in m \
+                                        and not any(isinstance(x, ast.Name) and x.id == st.targets[0].id for x in ast.walk(st.value)):
+                                    ren[rv.id] = st.targets[0].id
+                                    same = True
 
                                 class Ren(ast.NodeTransformer):
                                     def visit_Name(self_, n_):
